@@ -124,6 +124,10 @@ class MessageData(object):
                                     else:
                                         # Unrecognized data shape.
                                         pass
+                                elif len(value.shape) > 2 and value.shape[0] == len(is_nan):
+                                    # Arrays with more than 2 dimensions (e.g., Nx3x3 covariance matrices) store time
+                                    # along the first dimension.
+                                    self.__dict__[key] = value[keep_idx, ...]
                                 else:
                                     # Unrecognized data shape.
                                     pass
